@@ -283,7 +283,7 @@ def shard_machine(arg):
             rep.count("histories_with_flush", any(h[0] == "flush" for h in hist))
             if muts:
                 rep.nontrivial.add(fw.h64(json.dumps(hist, sort_keys=True, default=str)))
-                if len(rep.samples) < 2 and len(hist) <= 12:
+                if len(rep.samples) < 2 and len(hist) <= 45:
                     rep.samples.append({"history": [[h[0]] + ([h[1]["fn"], h[1].get("n"), h[1].get("name")] if h[0] == "call" else list(h[1:])) for h in hist]})
             for h in hist:
                 if h[0] == "call":
